@@ -303,7 +303,7 @@ class Interface(object):
             val.append(method)
 
         elif val[0].aux is not None:
-            val.insert(method, 0)
+            val.insert(0, method)
 
         else:
             om = val[0]
